@@ -20,6 +20,20 @@ Theorem C19_started_stub_relays : forall (U : Type) (us : list U) (cb : callback
 Proof. exact (fun U => @stub_update_started U). Qed.
 Print Assumptions C19_started_stub_relays.
 
+(* The call Stub.UpdateContainers makes carries no deadline (read off the current source), so however
+   long the call-back runs or waits for the adaptation mutex — behind runtime requests or other
+   plugins' updates — the plugin gets exactly what the relay returns; under a deadline d (what a
+   bounded context would do) a call-back lasting d or longer would lose its result. *)
+Theorem C19_relay_independent_of_duration : forall (U : Type) (us : list U) (cb : callback U) (dur : N),
+  stub_update_timed stub_update_deadline true us cb dur = relay_update us cb.
+Proof. exact (fun U => @stub_update_any_duration U). Qed.
+Print Assumptions C19_relay_independent_of_duration.
+
+Theorem C19_a_deadline_would_lose_the_result : forall (U : Type) (us : list U) (cb : callback U) (d dur : N),
+  (d <= dur)%N -> stub_update_timed (Some d) true us cb dur = (([], Some "context deadline exceeded"), [us]).
+Proof. exact (fun U => @stub_update_deadline_loses_result U). Qed.
+Print Assumptions C19_a_deadline_would_lose_the_result.
+
 (* A stub that was not started answers with its no-service error and the call-back is not run. *)
 Theorem C19_no_service : forall (U : Type) (us : list U) (cb : callback U),
   stub_update false us cb = (([], Some err_no_service), []).
@@ -61,6 +75,11 @@ Proof. reflexivity. Qed.
 Example C19_relay_error :
   relay_update [("c1", 10%Z)] (fun us => (us, Some "boom")) = (([], Some "boom"), [[("c1", 10%Z)]]).
 Proof. reflexivity. Qed.
+
+Example C19_slow_callback :
+  stub_update_timed stub_update_deadline true [("c1", 10%Z)] (fun us => (us, None)) 900000 = (([("c1", 10%Z)], None), [[("c1", 10%Z)]]) /\
+  stub_update_timed (Some 300%N) true [("c1", 10%Z)] (fun us => (us, None)) 900 = (([], Some "context deadline exceeded"), [[("c1", 10%Z)]]).
+Proof. split; vm_compute; reflexivity. Qed.
 
 Example C19_unstarted : fst (stub_update false [("c1", 10%Z)] (fun us => (us, None))) = ([], Some "stub: no service/connection").
 Proof. reflexivity. Qed.
